@@ -50,6 +50,9 @@ type omniSched struct {
 	// Proxy (production binary only): the logs are reachable only through an egress proxy announced in the environment (HTTP_PROXY), as on
 	// hosts without direct access to the outside; their URLs carry host names only the proxy can resolve.
 	Proxy bool `json:"proxy"`
+	// Stall makes outages silent: the log server accepts every request and then says nothing at all (the connection stays open for the rest of
+	// the run). Only the HTTP client's own timeout ends such a request; requests made after the outage are answered normally.
+	Stall bool `json:"stall"`
 }
 
 type omniEvent struct {
@@ -179,7 +182,7 @@ func startOmni(w *world.World, p persistence.LogStatePersistence) (*omniSvc, err
 	go func() {
 		s.done <- omniwitness.Main(ctx, omniwitness.OperatorConfig{WitnessKeys: signers, WitnessVerifier: witV, FeedInterval: omniInterval,
 			RestDistributorBaseURL: omniDistURL, DistributeInterval: omniInterval},
-			p, ln, &http.Client{Timeout: 5 * time.Second})
+			p, ln, &http.Client{Timeout: 2 * time.Second})
 	}()
 	return s, nil
 }
@@ -430,6 +433,8 @@ func execOmni(s omniSched, dir string, seed int64) ([]any, error) {
 		}
 	}
 	settleAll()
+	runOver := make(chan struct{})
+	defer close(runOver)
 	for _, e := range s.Events {
 		k++
 		switch e.A {
@@ -441,9 +446,17 @@ func execOmni(s omniSched, dir string, seed int64) ([]any, error) {
 			isDown[e.L] = down
 			if down {
 				partial := s.Partial
+				stall := s.Stall
 				logs[e.L].SetHostile(func(rw http.ResponseWriter, r *http.Request) bool {
 					if partial && (r.URL.Path == "/latest" || r.URL.Path == "/checkpoint") {
 						return false
+					}
+					if stall {
+						select {
+						case <-runOver:
+						case <-r.Context().Done():
+						}
+						return true
 					}
 					http.Error(rw, "outage", 503)
 					return true
